@@ -73,6 +73,25 @@ def answerOk (sp : C07.Spec) (now : Time) (k : Key) (mayEvict tags : Bool) : Out
       | none => true)
   | _ => false
 
+/-- every trigger name that any store of the history attached to a key (the key itself included), newest first.
+An L1 refresh reports the union of what the L1 held for the key and what the server holds now
+(`tags->insert` accumulates), so on a node with L1 this — not the current entry's set — is the upper
+bound of the reported set; it is never reset by `clear` (another node's L1 survives a clear). -/
+def everStep (ev : Key → List Key) : SOp → Key → List Key
+  | .store k _ trigs _ => fun k' => if k' = k then ownTrigs k trigs ++ ev k else ev k'
+  | _ => ev
+
+/-- **upper bound of the reported trigger set**: no foreign names.  `exact`: the node has no L1 — the
+set is the current entry's; otherwise names of earlier versions of the same key may linger. -/
+-- (see the NUL remark inside)
+def trigsBounded (sp : C07.Spec) (ev : Key → List Key) (k : Key) (exact : Bool) (ts : List Key) : Bool :=
+  -- names containing NUL are split on the wire (findings tcp-trigger-nul / tcp-key-nul): the bound speaks
+  -- about keys whose names (the key itself included) are all NUL-free
+  if (ev k).any (·.contains 0) then true else
+  match sp k with
+  | some e => ts.all fun t => if exact then e.trigs.contains t else (ev k).contains t
+  | none => true
+
 /-- same key, same number of servers ⇒ same server: sharding is a function of these two only
 (stated in `Props.consistent_sharding` for the model's `shard`) -/
 def ConsistentSharding (shard : Nat → Key → Nat) : Prop :=
